@@ -9,6 +9,7 @@
 -/
 import Babylon.RVec.Lemmas7
 import Babylon.RVec.StrLemmas
+import Babylon.RVec.MsgLemmas
 
 namespace Babylon.Properties.C12
 open Babylon.RVec Babylon.RVec.RVec Babylon.Gen.RVec Babylon.Core
@@ -106,6 +107,24 @@ theorem gen_src_string_move_assign : src_string_move_assign =
     "{if(get_allocator()==other.get_allocator()){swap(other);}else{*this=other;}return*this;}" := rfl
 theorem gen_src_string_construct_with_meta : src_string_construct_with_meta =
     "{allocator.construct(ptr);stable_reserve(*ptr,meta.capacity);}" := rfl
+
+/-! protobuf messages: the capacity-metadata round trip (message.cpp, message.h) -/
+theorem gen_src_msg_update : src_msg_update =
+    "{if(!_initialized){initialize(message);}auto*reflection=message.GetReflection();for(auto&field:_fields){field.update(message,reflection);}}" := rfl
+theorem gen_src_msg_reserve : src_msg_reserve =
+    "{auto*reflection=message.GetReflection();auto*arena=message.GetArena();for(auto&field:_fields){field.reserve(message,reflection,arena);}}" := rfl
+theorem gen_src_msg_field_update : src_msg_field_update =
+    "{if(descriptor->is_repeated()){update_repeated_field(message,reflection);}elseif(descriptor->cpp_type()==::google::protobuf::FieldDescriptor::CPPTYPE_STRING){auto&string=reflection->GetStringReference(message,descriptor,nullptr);if(&string!=default_string){update(string);}}else{auto&sub_message=reflection->GetMessage(message,descriptor);update(sub_message);}}" := rfl
+theorem gen_src_msg_field_update_string : src_msg_field_update_string =
+    "{string_reserved=::std::max(string_reserved,static_cast<int64_t>(str.capacity()));}" := rfl
+theorem gen_src_msg_field_update_message : src_msg_field_update_message =
+    "{if(&message!=default_message){if(!message_allocation_metadata){message_allocation_metadata.reset(newMessageAllocationMetadata);message_allocation_metadata->initialize(message);}message_allocation_metadata->update(message);}}" := rfl
+theorem gen_src_msg_field_reserve : src_msg_field_reserve =
+    "{if(descriptor->is_repeated()&&repeated_reserved>0){reserve_repeated_field(message,reflection,arena);}elseif(descriptor->cpp_type()==::google::protobuf::FieldDescriptor::CPPTYPE_STRING&&string_reserved>=0){reserve_string_field(message,reflection,arena);}elseif(message_allocation_metadata){auto*sub_message=reflection->MutableMessage(&message,descriptor);message_allocation_metadata->reserve(*sub_message);}}" := rfl
+theorem gen_src_msg_construct_with_meta : src_msg_construct_with_meta =
+    "{allocator.construct(ptr);meta.reserve(*ptr);ptr->Clear();}" := rfl
+theorem gen_src_msg_create_with_meta : src_msg_create_with_meta =
+    "{autoinstance=metadata.default_instance->New(&static_cast<Arena&>(*allocator.resource()));metadata.metadata.reserve(*instance);instance->Clear();returninstance;}" := rfl
 
 /-! ### A. representation invariant -/
 
@@ -318,6 +337,34 @@ theorem manager_recreated_is_converged (m : Mgr) (acc : Nat) (u : MUnit) (W : Li
   have om := ofMeta_spec u.md
   exact ⟨u, hu, by rw [hi]; exact om.1, by rw [hi]; exact om.2.1, by rw [hi]; exact om.2.2.2.1,
     by rw [hi]; exact om.2.2.2.2.1, hf⟩
+
+
+/-! ### protobuf messages behind the manager -/
+
+/-- `msg_recreate_keeps_capacity`: a message re-created from metadata that was updated with the
+instance's retained capacities (`update` then `reserve`, what `ReusableManager::clear()` does on a
+re-creation boundary) retains at least everything the old instance retained — every string
+capacity, every repeated slot, every kept element *per index*, the singular sub-message object
+and what it holds — regardless of whether the sub-message's has-bit was set when the snapshot
+was taken (after a logical `Clear()` it is not, while the object still owns its capacity). -/
+theorem msg_recreate_keeps_capacity (m : Msg.TopMeta) (c : Msg.Top) :
+    c.le (m.update c).reserve ∧ c.clear.le ((m.update c.clear).reserve) ∧ (m.update c).reserve.hasSub = false :=
+  ⟨Msg.Top.le_reserve_update m c, Msg.Top.le_reserve_update m c.clear, rfl⟩
+
+/-- `msg_metadata_converges`: the metadata is a fixed point of the round trip — re-creating from
+it and updating with the re-created instance records nothing new; so once a workload's needs are
+in the metadata every later re-creation allocates exactly the same reservation. -/
+theorem msg_metadata_converges (m : Msg.TopMeta) (c : Msg.Top) :
+    (m.update c).update (m.update c).reserve = m.update c :=
+  Msg.TopMeta.update_reserve _
+
+/-- why the rule must be "descend iff the sub-message *object* exists": with the has-bit rule
+(seeded change of `FieldAllocationMetadata::update`) a snapshot taken after a logical clear loses
+the sub-message and its 300 characters of string capacity -/
+theorem msg_hasbit_rule_counterexample :
+    let c : Msg.Top := { sub := some { s := 300 }, hasSub := true }
+    ((({} : Msg.TopMeta).updateHasBit c.clear).reserve.sub = none) ∧
+    ((({} : Msg.TopMeta).update c.clear).reserve.sub = some { s := 300 }) := by decide
 
 /-! ### reusable string -/
 
